@@ -156,6 +156,8 @@ type Exec struct {
 	nosplit  bool
 	divAbstract bool
 	abstractAll bool
+	assumeCalls bool
+	callOrd  map[string]int // per callee: how many calls were executed at top level so far (anchors "call X #k")
 	inlines  map[string]bool
 	pureCalls map[string]bool
 	pureFacts map[string]bool
@@ -544,6 +546,12 @@ func (e *Exec) panicInstr(fr *frame, x *ssa.Panic, reach Term, st *State) {
 	if fr.spec != nil && fr.spec.MayPanic {
 		return
 	}
+	if !e.safety && len(e.curFn) > 1 {
+		// a unit without safety obligations (control-flow accounting): the range checks that
+		// inlined accessors spell out as explicit panics are index checks like the implicit ones
+		e.trusted["explicit panics inside inlined callees (range checks of accessors) are not proved unreachable in this unit"] = true
+		return
+	}
 	e.oblige("panic", label+":"+e.fnShort(x.Parent()), reach, tFalse, x.Pos())
 }
 
@@ -679,6 +687,16 @@ func (fr *frame) runLoop(li *LoopInfo) {
 	for _, k := range ls.Invariants {
 		g := e.evalSpecBool(k, fr.specEnv(hst), hst, fr.entryCells())
 		c.assume(c.implies(hreach, g), "loop invariant")
+	}
+	for _, nw := range ls.NoWrap {
+		v := e.evalSpecInt(nw, fr.specEnv(hst), hst, fr.entryCells())
+		w := v.Sort.W
+		lim := int64(1) << 62
+		if w <= 62 {
+			lim = int64(1) << (w - 2)
+		}
+		c.assume(c.implies(hreach, c.and(c.app(sortBool, "bvslt", v, bvLitI(w, lim)), c.app(sortBool, "bvsgt", v, bvLitI(w, -lim)))), "nowrap")
+		e.trusted[fmt.Sprintf("machine arithmetic: counter %s in %s is assumed not to wrap around (|value| < 2^%d at the head of loop %d)", nw.Src, fr.fi.Fn.Name(), 62, li.Ord)] = true
 	}
 	// lemma instances and unfoldings at the loop header
 	lct := fr.spec
